@@ -42,6 +42,21 @@ def gen_cases(tier, spin):
             if tier == "quick" and sum(1 for k in D if k) == 2 and not any(abs(v) == 1 for k, v in D.items() if k):
                 continue     # quick: one wide coefficient next to a unit one (the asymmetric ranges); thorough: all pairs
             yield {"part": "single", "poly": rp.jdict(D), "spin": spin, "wide": True}
+        if spin:
+            # images of the boolean special-form neighbourhood: PCSO converts to boolean variables and reuses the PCBO code, so the
+            # spin polynomials that can reach a boolean special form are exactly H(z) = m * B((1 - z) / 2) for small boolean B
+            # (m makes the coefficients integers).  Every boolean B with <= 2 terms (thorough: <= 3) and unit coefficients.
+            seen = set()
+            for B in gen.polys(N, 2 if tier == "quick" else 3, (-1, 1), offsets=(0, 1, -1), minterms=1):
+                deg = max(len(k) for k in B)
+                m = 2 ** deg
+                t = rp.tt(B, list(range(N)), False) * m
+                Dz = {k: int(round(v)) for k, v in rp.canonical(t, list(range(N)), True).items()}
+                key = tuple(sorted(Dz.items()))
+                if key in seen or not any(k for k in Dz):
+                    continue
+                seen.add(key)
+                yield {"part": "single", "poly": rp.jdict(Dz), "spin": spin, "wide": True, "image": True}
         if spin and tier == "quick":
             # two-term polynomials with unit coefficients only (the full two-term space is the thorough tier)
             for D in gen.polys(N, 2, (-1, 1), offsets=(0, 1), minterms=2):
@@ -303,6 +318,7 @@ def run(ctx, spin):
     ctx.bounds = {"n": N, "coefs": COEFS, "offsets": OFFSETS, "relations": RELS, "bounds": BOUNDS, "lams": LAMS,
                   "max_terms": ((2 if ctx.quick else 3) if not spin else ("1, plus 2 with unit coefficients" if ctx.quick else 2)),
                   "wide_slice": "two variables, <=2 terms with a coefficient from %s (quick: paired with a unit coefficient), offsets {0,1,-1}, bounds omitted/exact/loose-half, lam 1" % ((-10, -9, -7, -5, -3, 3, 5, 7, 9, 10) if not spin else (-5, -3, 3, 5),),
+                  **({"boolean_image_slice": "spin polynomials m*B((1-z)/2) for every boolean B over 3 variables with <= %d unit-coefficient terms, offsets {0,1,-1} (the inputs that reach the boolean special forms); bounds omitted/exact/loose-half, lam 1" % (2 if ctx.quick else 3)} if spin else {}),
                   "forms": "dict everywhere; PUBO/PUSO object and variable expression where bounds omitted and lam=1", "max_ancillas": MAX_ANC,
                   "sequence_menu": [[m[0], rp.jdict(m[1]), m[2]] for m in menu],
                   "sequence_length": 2 if (ctx.quick or spin) else "2 and 3"}
